@@ -14,7 +14,7 @@ def view_slots(start, slots):
     return [[start + i, s[0]] for i, s in enumerate(slots) if s]
 
 
-async def _run(product, thermostats, ops, uid_at=None, gap=0):
+async def _run(product, thermostats, ops, uid_at=None, gap=0, subscribed=None):
     from pyplumio.devices.ecomax import EcoMAX
     from pyplumio.frames import responses as R
     from pyplumio.helpers.parameter import Parameter
@@ -32,6 +32,16 @@ async def _run(product, thermostats, ops, uid_at=None, gap=0):
             await asyncio.gather(*pending, *subs, return_exceptions=True)
         await asyncio.sleep(0)
 
+    if subscribed:
+        # user subscriptions on the ecoMAX parameter events through the library's filters; the callback passes on what it is given
+        from pyplumio import filters as F
+        from pyplumio.const import ProductType
+        from pyplumio.structures import ecomax_parameters as EP
+
+        async def passthrough(value):
+            return value
+        for d in EP.ECOMAX_PARAMETERS[ProductType(product)]:
+            dev.subscribe(d.name, (F.on_change if subscribed == "on_change" else (lambda cb: F.debounce(cb, 1)))(passthrough))
     if uid_at is not None:
         # the product information arrives late: the responses before it are handled while the product is unknown (their handlers
         # wait for it), so settling is done by letting (virtual) time pass, never by waiting for the handler tasks
@@ -105,7 +115,7 @@ class C07(Prop):
     prop_file = "Props/C07.v"
     rule = ("both product types x ecoMAX parameter responses with arbitrary start / count / undefined holes, including positions up to ten "
             "beyond the end of the table, x mixer blocks for 0..4 mixers x thermostat blocks for 0..2 thermostats (1- and 2-byte slots, holes) x "
-            "repeated responses (create then update), also with the product information arriving only after some of them (`late-product`, pauses up to minutes); the payloads are rendered by the Coq spec encoders and fed to a real EcoMAX through "
+            "repeated responses (create then update), also with the product information arriving only after some of them (`late-product`, pauses up to minutes), and with user subscriptions on the parameter events through the on_change / debounce filters (`subscribed`); the payloads are rendered by the Coq spec encoders and fed to a real EcoMAX through "
             "handle_frame; then for EVERY named parameter of the device, its mixers and thermostats the request built by create_request() is "
             "compared with the position its name has in the table.  Non-trivial = at least one parameter created from a response with a hole "
             "or a non-zero start; distinct by case content.")
@@ -166,6 +176,9 @@ class C07(Prop):
                                                    [self._slots(rng, per, size_of, hole_p=rng.choice([hp, hp, hp, 1.0])) for _ in range(nth)]]})
             if ops:
                 cases.append({"kind": "random", "product": product, "thermostats": nth, "ops": ops})
+                if rng.random() < 0.25 and any(o["kind"] == 0 for o in ops):
+                    cases.append({"kind": "subscribed", "product": product, "thermostats": nth, "ops": [dict(o) for o in ops],
+                                  "subscribed": rng.choice(["on_change", "debounce"])})
                 if rng.random() < 0.3:
                     # the same history with the product information (UID response) arriving only after some of the responses,
                     # and after a pause of up to minutes
@@ -183,7 +196,7 @@ class C07(Prop):
 
     def run_impl(self, c):
         self._render(c)
-        res = vloop.run(_run, c["product"], c["thermostats"], c["ops"], c.get("uid_at"), c.get("gap", 0))
+        res = vloop.run(_run, c["product"], c["thermostats"], c["ops"], c.get("uid_at"), c.get("gap", 0), c.get("subscribed"))
         t = G.tables()
         tabs = {0: t["ecomax_params_p" if c["product"] == 0 else "ecomax_params_i"],
                 1: t["mixer_params_p" if c["product"] == 0 else "mixer_params_i"], 2: t["thermostat_params"],
